@@ -128,3 +128,35 @@ Definition linked_pairs (bs : bytes) : list (bytes * N) :=
   let sz := len bs in
   let hl := get32 bs hdr_np in
   flat_map (fun i => linked_from (walk_fuel_sz sz) sz bs hl (load32_sz sz bs (head_off hl i))) buckets.
+
+(* ------------------------------------------------------------------ *)
+(* counter.Read / ReadStack / ReadFile (counter.go): readFile maps the
+   counter file AFRESH (ReadMapped: open, stat, mmap, copy) and parses that
+   copy, so what it returns is a function of the file's current contents, not
+   of the mapping the reading process happens to hold.  bs = those contents. *)
+
+Inductive read_result := RdErr | RdNotFound | RdVal (v : N).
+
+(* pf.Count[k] of the Go map an assignment list stands for *)
+Definition find_last (k : bytes) (cs : list (bytes * N)) : option N :=
+  fold_left (fun acc kv => if beq (fst kv) k then Some (snd kv) else acc) cs None.
+
+(* Read(c) for a counter named name *)
+Definition read_counter (bs name : bytes) : read_result :=
+  match parse bs with
+  | POk _ cs => match find_last (decode_stack name) cs with Some v => RdVal v | None => RdNotFound end
+  | _ => RdErr
+  end.
+
+Definition is_stack_name (k : bytes) : bool :=
+  match index_byte k c_nl with Some _ => true | None => false end.
+
+(* ReadFile(name): (counters, stackCounters) as assignment lists, None = error *)
+Definition read_file (bs : bytes) : option (list (bytes * N) * list (bytes * N)) :=
+  match parse bs with
+  | POk _ cs =>
+      let m := last_wins cs in
+      Some (filter (fun kv => negb (is_stack_name (fst kv))) m,
+            map (fun kv => (decode_stack (fst kv), snd kv)) (filter (fun kv => is_stack_name (fst kv)) m))
+  | _ => None
+  end.
